@@ -12,7 +12,7 @@ class C08(C07):
             "independently from the per-base coverage depth. Non-trivial = a stored level with two or more records")
 
     def gen_input(self, r):
-        return bbgen.gen_bed_input(r, with_rest=False)
+        return bbgen.gen_bed_input(r, with_rest=False, lengths=(100, 300, 1000, 5000))
 
 
 PROP = C08()
